@@ -31,7 +31,7 @@ type CPHandshake struct{}
 func (CPHandshake) ID() string { return "C19" }
 
 // Version implements harness.Harness.
-func (CPHandshake) Version() string { return "c19-cpctrl-v1" }
+func (CPHandshake) Version() string { return "c19-cpctrl-v3" }
 
 // Runs implements harness.Harness.
 func (CPHandshake) Runs(tier string) int {
@@ -45,7 +45,7 @@ func (CPHandshake) Runs(tier string) int {
 func (CPHandshake) Meta() harness.Meta {
 	return harness.Meta{
 		Rule: "part (c), command-processor side of the handshake: the run of part (b) (real amd/driver.Driver, real akita mmu.Comp, scripted L2 TLBs) with, per GPU, the real amd/timing/cp.CommandProcessor in place of the protocol stub. Behind each command processor: 1-6 stub compute units, 1-4 address translators, 0-3 L1V / L1S / L1I caches, 1-3 L2 caches, 1-4 TLBs, one RDMA engine and one page migration controller (which performs the requested page copy in the model memory), each a responder with its own drawn latency, acceptance rate, out-of-order service and back-pressure, on fault-injecting links. " +
-			"Oracle per command processor over its port history, in addition to every rule of part (b): RDMA drain / restart commands are forwarded once each and acknowledged to the driver only after the RDMA engine answered; a shootdown runs compute-unit pipeline flush -> address-translator discard -> cache flush (invalidating) -> TLB flush (the command's process and virtual addresses) with every component of a wave addressed exactly once, no message of a wave before every answer of the previous wave was delivered, and exactly one completion to the driver after the last TLB answered; a page migration request reaches the migration controller once with the driver's source, destination, size and remote controller port, and its completion goes to the driver once, after the controller answered; a GPU restart runs caches -> TLBs -> address translators -> compute units in the same manner and answers once; at quiescence nothing is half done. " +
+			"Oracle per command processor over its port history, in addition to every rule of part (b): RDMA drain / restart commands are forwarded once each and acknowledged to the driver only after the RDMA engine answered; a shootdown runs compute-unit pipeline flush -> address-translator discard -> cache flush (invalidating) -> TLB flush (the command's process and virtual addresses) with every component of a wave addressed exactly once and answering exactly once (a message is routed by the destination it carries when the connection takes it), no message of a wave before every answer of the previous wave was delivered, and exactly one completion to the driver after the last TLB answered; a page migration request reaches the migration controller once with the driver's source, destination, size and remote controller port, and its completion goes to the driver once, after the controller answered; a GPU restart runs caches -> TLBs -> address translators -> compute units in the same manner and answers once; at quiescence nothing is half done. " +
 			"non-trivial = a fault fired or a tie was reordered and at least one migration completed; distinct = distinct (configuration digest, port-event-order digest)",
 		RealComponents: []string{"amd/timing/cp.CommandProcessor (ctrlMiddleware: RDMA drain/restart, shootdown, page-migration forwarding, GPU restart)", "amd/driver.Driver (migration state machine, allocator)", "akita mmu.Comp", "akita vm.PageTable", "akita sim.Port"},
 		StubComponents: []string{"compute units, address translators, caches, TLBs, RDMA engines, page migration controllers (protocol responders; the controller copies the page in a model memory)", "L2 TLBs sending translation requests (scripted requesters)", "engine (SeededEngine)", "connections (FaultyConn)"},
@@ -55,7 +55,7 @@ func (CPHandshake) Meta() harness.Meta {
 			"no kernel launch or memory copy traffic during the handshake (the dispatcher side of the command processor is C09's subject)",
 		},
 		FaultKinds:     []string{"tie_reorder", "delay", "cross_reorder", "backpressure", "slow_lower_level", "ooo_response"},
-		ExpectedProbes: []string{"migration_completed", "cp_shootdown_completed", "cp_restart_completed", "cp_migration_forwarded", "cp_wave_answers_out_of_order", "cp_second_shootdown_on_one_gpu", "four_gpus"},
+		ExpectedProbes: []string{"allocation_during_migration_window", "migration_completed", "cp_shootdown_completed", "cp_restart_completed", "cp_migration_forwarded", "cp_wave_answers_out_of_order", "cp_second_shootdown_on_one_gpu", "four_gpus"},
 		ShrinkBudget:   300,
 	}
 }
@@ -72,6 +72,7 @@ type wave struct {
 	kind      string
 	targets   map[sim.RemotePort]bool
 	sentTo    map[sim.RemotePort]int
+	answered  map[sim.RemotePort]int
 	nSent     int
 	delivered int
 	lastFrom  int // index of the target that answered last (out-of-order probe)
@@ -121,7 +122,7 @@ func (o *cpOracle) targets(class ...string) map[sim.RemotePort]bool {
 }
 
 func (o *cpOracle) newWave(kind string, class ...string) *wave {
-	return &wave{kind: kind, targets: o.targets(class...), sentTo: map[sim.RemotePort]int{}, lastFrom: -1}
+	return &wave{kind: kind, targets: o.targets(class...), sentTo: map[sim.RemotePort]int{}, answered: map[sim.RemotePort]int{}, lastFrom: -1}
 }
 
 func (o *cpOracle) f(rule, sig, format string, a ...any) {
@@ -168,6 +169,18 @@ func (o *cpOracle) waveAnswer(kind string, from sim.RemotePort) {
 	}
 	for _, w := range o.ops[0].waves {
 		if w.kind == kind {
+			// the answers are the evidence of where the messages really went (a message is routed by the
+			// destination it carries when the connection takes it, which may differ from the one it carried
+			// when it was queued): every component of the wave answers once
+			w.answered[from]++
+			if !w.targets[from] {
+				o.f("R4", kind+"-answered-by-wrong-component", "%s answered by %s, which is not a component of that class", kind, from)
+				return
+			}
+			if w.answered[from] > 1 {
+				o.f("R3", kind+"-reached-one-component-twice", "%s: %s answered %d times during one %s - it received the message of another component of the wave, which therefore never got its own", kind, from, w.answered[from], o.ops[0].name)
+				return
+			}
 			w.delivered++
 			if idx, ok := o.order[from]; ok {
 				if idx < w.lastFrom {
@@ -424,7 +437,7 @@ func (o *cpOracle) atEnd() {
 // every control port and returns it, the port that stands for the GPU's
 // migration controller towards other GPUs, and its oracle.
 func buildRealCP(r *rig.Rig, ch *choice.Source, g int, driverPort sim.Port, memModel map[uint64][]byte, pageSize uint64,
-	fail failFn, probes map[string]uint64) (*cp.CommandProcessor, sim.Port, *cpOracle) {
+	fail failFn, probes map[string]uint64, onMigration func()) (*cp.CommandProcessor, sim.Port, *cpOracle) {
 	name := fmt.Sprintf("GPU[%d]", g)
 	proc := cp.MakeBuilder().WithEngine(r.Eng).WithFreq(r.Freq).WithDriver(driverPort).Build(name + ".CP")
 	o := &cpOracle{g: g, fail: fail, probes: probes, classes: map[string][]sim.RemotePort{}, order: map[sim.RemotePort]int{}}
@@ -529,6 +542,9 @@ func buildRealCP(r *rig.Rig, ch *choice.Source, g int, driverPort sim.Port, memM
 		if !ok {
 			return nil
 		}
+		if onMigration != nil {
+			onMigration()
+		}
 		// the stub controller performs the copy it is asked for
 		from, to := req.ToReadFromPhysicalAddress, req.ToWriteToPhysicalAddress
 		if req.PageSize != pageSize || from%pageSize != 0 || to%pageSize != 0 {
@@ -573,7 +589,7 @@ type CPScript struct{}
 func (CPScript) ID() string { return "C19" }
 
 // Version implements harness.Harness.
-func (CPScript) Version() string { return "c19-cpscript-v1" }
+func (CPScript) Version() string { return "c19-cpscript-v2" }
 
 // Runs implements harness.Harness.
 func (CPScript) Runs(tier string) int {
@@ -616,7 +632,7 @@ func (CPScript) Run(ch *choice.Source, opt harness.Options) harness.Result {
 
 	drv := r.Requester("Driver", 2+ch.Intn(8, "drv.inbuf"), 2+ch.Intn(8, "drv.outbuf"))
 	memModel := map[uint64][]byte{}
-	proc, remote, ora := buildRealCP(r, ch, 0, drv.Port, memModel, pageSize, fail, probes)
+	proc, remote, ora := buildRealCP(r, ch, 0, drv.Port, memModel, pageSize, fail, probes, nil)
 	r.Conn("ConnDriver", drv.Port, proc.ToDriver)
 
 	// what came back, by type
